@@ -14,7 +14,8 @@
 (*     lit  = TRUE if the domain is an IP literal of one of this host's    *)
 (*            interfaces (then dom = <<>>)                                 *)
 (* Configuration:                                                          *)
-(*   cfg = [rh, exact, suffix, mexact, msuffix, bmfaddr, bmfdom, lip, relay]*)
+(*   cfg = [rh, exact, suffix, mexact, msuffix, bmfaddr, bmfdom, lip, relay,*)
+(*          mrhbad]                                                         *)
 (*     rh: control/rcpthosts exists; exact / suffix: its entries (suffix   *)
 (*     entries are the ".dom" lines, stored without the dot, as label      *)
 (*     sequences); mexact / msuffix: morercpthosts.cdb; bmfaddr / bmfdom:  *)
@@ -43,7 +44,7 @@ TooLong(a, cfg) == a.long \/ (a.edge /\ a.lit /\ cfg.lip # <<>> /\ NameLen(cfg.l
 Allowed(a, cfg) ==
   \/ ~cfg.rh                                         \* no rcpthosts file: everything is accepted
   \/ a.noat                                          \* addresses without @ are allowed
-  \/ (~a.lit /\ (HostListed(a.dom, cfg.exact, cfg.suffix) \/ HostListed(a.dom, cfg.mexact, cfg.msuffix)))
+  \/ (~a.lit /\ (HostListed(a.dom, cfg.exact, cfg.suffix) \/ (~cfg.mrhbad /\ HostListed(a.dom, cfg.mexact, cfg.msuffix))))    \* an unreadable compiled list lists nothing
 BadSender(s, cfg) == [loc |-> s.loc, dom |-> s.dom] \in cfg.bmfaddr \/ (~s.noat /\ s.dom \in cfg.bmfdom)
 \* how an accepted recipient is stored: with the relay suffix appended when relaying is enabled
 Stored(a, cfg) == [a |-> Subst(a, cfg), sfx |-> cfg.relay = "suffix"]
